@@ -68,6 +68,13 @@ def run(pid, seed=0):
     for bid, props, rel, old, new in BENIGN:
         if pid in props:
             items.append(('benign', bid, rel, old, new, None, None))
+    # behaviour-preserving refactorings written by independent sub-agents (whole patches; every
+    # check must stay silent on every one of them)
+    rdir = os.path.join(VERIF, 'selftest', 'refactorings')
+    if os.path.isdir(rdir):
+        for fn in sorted(os.listdir(rdir)):
+            if fn.endswith('.diff'):
+                items.append(('benign', fn[:-5], None, None, None, None, os.path.join(rdir, fn)))
     # confirmed seeded changes of independent sub-agents
     rp = os.path.join(VERIF, 'seeded', 'RESULTS.json')
     if os.path.exists(rp):
